@@ -11,7 +11,7 @@ import math
 
 import numpy as np
 
-from harness import core
+from harness import core, systems
 from harness.coqio import lit, flit, parse_evals, Raw
 
 META = {
@@ -279,6 +279,101 @@ def validate_translation(ctx, n):
 
 
 # ------------------------------------------------------------------ run
+# ------------------------------------------------------------------ complete gen_coords runs: templates polyply generates itself
+def pipeline_top(rng):
+    """a copolymer of residue kinds with / without a virtual site; returns topology text and the residue names"""
+    kinds = {'RA': (['A', 'B', 'C'], True), 'RB': (['A', 'B', 'C', 'D'], False), 'RC': (['A', 'B'], True)}
+    seq = [rng.choice(sorted(kinds)) for _ in range(rng.randint(3, 6))]
+    atoms, bonds, angles, vsites = [], [], [], []
+    idx, prev = 0, None
+    for r, rn in enumerate(seq):
+        names, vs = kinds[rn]
+        ids = []
+        for nm in names:
+            idx += 1
+            ids.append(idx)
+            atoms.append((idx, 'P1', r + 1, rn, nm))
+        for a, b in zip(ids, ids[1:]):
+            bonds.append((a, b, rng.choice([0.28, 0.30, 0.33])))
+        for a, b, c in zip(ids, ids[1:], ids[2:]):
+            angles.append((a, b, c, rng.choice([90, 100, 120])))
+        if vs:
+            idx += 1
+            atoms.append((idx, 'VS', r + 1, rn, 'V'))
+            vsites.append((idx, ids[0], ids[1]))
+        if prev is not None:
+            bonds.append((prev, ids[0], 0.35))
+        prev = ids[-1]
+    lines = ['[ defaults ]', '1 1 no 1.0 1.0', '[ atomtypes ]', 'P1 72.0 0.0 A 0.47 4.5', 'VS 0.0 0.0 A 0.47 4.5',
+             '[ nonbond_params ]', 'P1 P1 1 0.47 4.5', 'VS VS 1 0.47 4.5', 'P1 VS 1 0.47 4.5', '[ moleculetype ]', 'pol 1', '[ atoms ]']
+    for i, t, resid, rn, nm in atoms:
+        lines.append(f"{i} {t} {resid} {rn} {nm} {i} 0 {0 if t == 'VS' else 72}")
+    lines.append('[ bonds ]')
+    lines += [f'{i} {j} 1 {l} 1000' for i, j, l in bonds]
+    if angles:
+        lines.append('[ angles ]')
+        lines += [f'{i} {j} {k} 1 {t} 50' for i, j, k, t in angles]
+    if vsites:
+        lines.append('[ virtual_sitesn ]')
+        lines += [f'{v} 1 {i} {j}' for v, i, j in vsites]
+    lines += ['[ system ]', 'x', '[ molecules ]', f'pol {rng.randint(1, 2)}']
+    return '\n'.join(lines) + '\n', seq
+
+
+def pipeline_cases(ctx, n, extra=()):
+    """the statement on complete runs, whichever options shaped the random walk: residue volumes given by name in a build
+    file concern the walk only"""
+    rng = ctx.rng
+    todo = list(extra)
+    for _ in range(n):
+        top, seq = pipeline_top(rng)
+        vol = rng.sample(sorted(set(seq)), rng.randint(0, len(set(seq))))
+        todo.append({'top': top, 'seq': seq, 'vol': vol, 'seed': rng.randrange(10 ** 6),
+                     'build': ''.join(f'[ volumes ]\n{rn} {rng.choice([0.4, 0.45, 0.5])}\n' for rn in vol)})
+    for item in todo:
+        top, seq, vol, build = item['top'], item['seq'], item['vol'], item['build']
+        seen = []
+
+        def wrap(real):
+            def run_molecule(self, meta_molecule):
+                out = real(self, meta_molecule)
+                for node in meta_molecule.nodes:
+                    d = meta_molecule.nodes[node]
+                    if d.get('backmap', True):
+                        seen.append((str(d['resname']), [float(x) for x in d['position']],
+                                     [(str(meta_molecule.molecule.nodes[a]['atomname']), [float(x) for x in meta_molecule.molecule.nodes[a]['position']])
+                                      for a in sorted(d['graph'].nodes)]))
+                return out
+            return run_molecule
+        with systems.Workdir() as wd:
+            kw = dict(box=np.array([7.0, 7.0, 7.0]), seed=item['seed'], timeout=90, hooks={'polyply.src.backmap:Backmap.run_molecule': wrap})
+            if build:
+                kw.update(build=['v.bld'], files={'v.bld': build})
+            res = systems.run_gen_coords(wd, top, **kw)
+        ctx.case(('pipeline', top, build), nontrivial=res['ok'] and bool(seen), sample={'residues': seq, 'volumes': vol})
+        ctx.feature('gen_coords_run_with_volumes' if vol else 'gen_coords_run_plain')
+        if not res['ok']:
+            ctx.note(f"gen_coords did not finish on a generated copolymer: {res['exc_type']}: {str(res.get('exception'))[:150]}")
+            continue
+        bad = None
+        shapes = {}
+        for rn, pos, ats in seen:
+            xyz = np.array([p for _, p in ats])
+            cog = xyz.mean(axis=0)
+            if np.linalg.norm(cog - np.array(pos)) > 1e-6 and bad is None:
+                bad = ('centre', f"residue {rn}: centre of geometry of its atoms {[round(float(x), 5) for x in cog]} is "
+                                 f"{np.linalg.norm(cog - np.array(pos)):.4f} nm from the residue position {[round(float(x), 5) for x in pos]}"
+                                 + (f" (run with [ volumes ] for {vol})" if vol else ''))
+            dm = np.linalg.norm(xyz[:, None, :] - xyz[None, :, :], axis=2)
+            key = (rn, tuple(nm for nm, _ in ats))
+            if key in shapes and np.abs(shapes[key] - dm).max() > 1e-6 and bad is None:
+                bad = ('congruent', f"two copies of residue {rn} differ in an interatomic distance by {np.abs(shapes[key] - dm).max():.5f} nm")
+            shapes.setdefault(key, dm)
+        if bad:
+            ctx.violation('spec', f"C06 {bad[0]} fails on the implementation output: {bad[1]}",
+                          {'claim': bad[0], 'detail': bad[1], 'pipeline': item})
+
+
 def run(ctx):
     gen_ok = not any(e['out'] in ('Gen_linalg', 'Gen_backmap') for e in ctx.gen['errors'])
     ctx.correspondences += ['translator-validation rotate_xyz (bit-exact, PrimFloat)',
@@ -290,6 +385,7 @@ def run(ctx):
             ctx.note(str(exc)[:500])
             ctx.broken.append('correspondence:translator-validation rotate_xyz (evaluation failed)')
             gen_ok = False
+    pipeline_cases(ctx, ctx.n(10, 100))
     n = ctx.n(150, 1500)
     cases = []
     for i in range(n):
@@ -394,7 +490,12 @@ def search(ctx):
 
 
 def replay(ctx, data):
-    print(json_dumps(data))
+    print(json_dumps(data)[:3000])
+    if data.get('pipeline'):
+        before = len(ctx.violations)
+        pipeline_cases(ctx, 0, extra=[data['pipeline']])
+        print('replay:', ctx.violations[-1]['what'] if len(ctx.violations) > before else 'statement satisfied on this run')
+        return 1 if len(ctx.violations) > before else 0
     if 'angles' in data and 'function' in data:
         from polyply.src.linalg_functions import _rotate_xyz
         pts = np.array([[0.0, 0, 0], [1.0, 0, 0], [0, 1.0, 0], [0, 0, 1.0]]).T
